@@ -385,6 +385,47 @@ def run_scenarios(binary, work, tier):
             time.sleep(0.03)
         log2 = open(srv.log.name).read()
         fact("C17", "reload", "empty-value-env-rename-detected", log2.count("Definitions changed") == 3, log2.count("Definitions changed"))
+        # -------------------------------------------------------------- reloads that change exactly one thing (C16 / C08)
+        # every edit below differs from the loaded definitions in one field only; each must take effect for jobs
+        # scheduled afterwards (the application only replaces the definitions if it finds them different)
+        defs_f = """pipelines:
+  one:
+    concurrency: 2
+    %(cont)s
+    tasks:
+      bad:
+        script:
+          - sh -c 'sleep 0.2; exit 1'
+      slow:
+        script:
+          - sleep 0.7
+          - echo survived%(extra_line)s
+%(extra_task)s"""
+        base = {"cont": "continue_running_tasks_after_failure: false", "extra_line": "", "extra_task": ""}
+
+        def reload_and_run(fields, n_changed):
+            write_defs(root2, defs_f % fields, sub="c")
+            srv.p.send_signal(signal.SIGUSR1)
+            srv.wait_log("Definitions changed", n_changed, d=6)
+            c, j = srv.schedule("one")
+            d = srv.wait_job(j, lambda x: x["completed"], 20) if j else None
+            tasks = {t["name"]: t for t in (d or {}).get("tasks", [])}
+            out = json.loads(srv.req("GET", "/job/logs?id=%s&task=slow" % j)[1]).get("stdout", "") if d else ""
+            return d, tasks, out
+
+        nch = open(srv.log.name).read().count("Definitions changed")
+        d0, t0_, o0 = reload_and_run(base, nch + 1)
+        fact("C08", "reload_fields", "fail-fast-stops-sibling", d0 is not None and t0_.get("slow", {}).get("status") == "canceled" and "survived" not in o0,
+             json.dumps({k: v.get("status") for k, v in t0_.items()}))
+        d1, t1_, o1 = reload_and_run(dict(base, cont="continue_running_tasks_after_failure: true"), nch + 2)
+        fact("C08", "reload_fields", "continue-flag-alone-takes-effect", d1 is not None and t1_.get("slow", {}).get("status") == "done" and "survived" in o1
+             and not d1.get("canceled") and d1.get("lastError"), json.dumps({k: v.get("status") for k, v in t1_.items()}) + " " + str((d1 or {}).get("lastError")))
+        f2 = dict(base, cont="continue_running_tasks_after_failure: true", extra_line="\n          - echo appended-line")
+        d2, t2_, o2 = reload_and_run(f2, nch + 3)
+        fact("C16", "reload_fields", "appended-script-line-alone-takes-effect", d2 is not None and "appended-line" in o2, o2[-60:])
+        f3 = dict(f2, extra_task="      added:\n        script: [\"echo added-task\"]\n        depends_on: [slow]\n")
+        d3, t3_, o3 = reload_and_run(f3, nch + 4)
+        fact("C16", "reload_fields", "added-task-alone-takes-effect", d3 is not None and t3_.get("added", {}).get("status") == "done", sorted(t3_))
     finally:
         srv.p.send_signal(signal.SIGTERM)
         srv.wait_exit(8)
